@@ -2,33 +2,44 @@
 """Replays the seeded changes that name <prop> in meta.json against scratch copies of the current
 tree and reports whether the property's check still flags them.  Self-validation only: prints JSON."""
 import json, os, shutil, subprocess, sys, glob
+from concurrent.futures import ThreadPoolExecutor
 
 here, repo, prop, scr = sys.argv[1:5]
-out = []
-for meta_path in sorted(glob.glob(os.path.join(here, "seeded", "*", "meta.json"))):
+
+
+def replay(meta_path):
     meta = json.load(open(meta_path))
-    if prop not in meta.get("detected_by_properties", []):
-        continue
     d = os.path.dirname(meta_path)
-    rec = {"seed": os.path.basename(d), "breaks": meta.get("breaks_property"), "expected_rules": meta.get("detected_by_rules", {}).get(prop, [])}
-    work = os.path.join(scr, "tree")
-    shutil.rmtree(work, ignore_errors=True)
-    subprocess.run(["rsync", "-a", "--exclude", ".git", repo.rstrip("/") + "/", work + "/"], check=True)
-    ap = subprocess.run(["git", "apply", "--whitespace=nowarn", os.path.join(d, "patch.diff")], cwd=work, capture_output=True, text=True)
-    if ap.returncode != 0:
-        rec["applied"] = False
-        rec["note"] = "patch no longer applies to the current tree (skipped)"
-        out.append(rec)
-        continue
-    rec["applied"] = True
-    vout = os.path.join(scr, "out")
-    shutil.rmtree(vout, ignore_errors=True)
-    os.makedirs(vout)
-    shutil.copy(os.path.join(here, "known_findings.json"), vout)
-    r = subprocess.run([os.path.join(here, "bin", "ykcheck"), "-repo", work, "-verif", vout, "-property", prop, "-tier", "quick"], capture_output=True, text=True)
-    rules = sorted({l.split("]")[1].split()[0] for l in r.stdout.splitlines() if l.strip().startswith("[violation]") or l.strip().startswith("[undecided]")})
-    rec["detected"] = r.returncode == 1
-    rec["reported_rules"] = rules
-    out.append(rec)
-    shutil.rmtree(work, ignore_errors=True)
+    name = os.path.basename(d)
+    rec = {"seed": name, "breaks": meta.get("breaks_property"), "expected_rules": meta.get("detected_by_rules", {}).get(prop, [])}
+    work = os.path.join(scr, "tree_" + name)
+    vout = os.path.join(scr, "out_" + name)
+    try:
+        shutil.rmtree(work, ignore_errors=True)
+        subprocess.run(["rsync", "-a", "--exclude", ".git", repo.rstrip("/") + "/", work + "/"], check=True)
+        ap = subprocess.run(["git", "apply", "--whitespace=nowarn", os.path.join(d, "patch.diff")], cwd=work, capture_output=True, text=True)
+        if ap.returncode != 0:
+            rec["applied"] = False
+            rec["note"] = "patch no longer applies to the current tree (skipped)"
+            return rec
+        rec["applied"] = True
+        shutil.rmtree(vout, ignore_errors=True)
+        os.makedirs(vout)
+        shutil.copy(os.path.join(here, "known_findings.json"), vout)
+        r = subprocess.run([os.path.join(here, "bin", "ykcheck"), "-repo", work, "-verif", vout, "-property", prop, "-tier", "quick"], capture_output=True, text=True)
+        rules = sorted({l.split("]")[1].split()[0] for l in r.stdout.splitlines() if l.strip().startswith("[violation]") or l.strip().startswith("[undecided]")})
+        rec["detected"] = r.returncode == 1
+        rec["reported_rules"] = rules
+        return rec
+    finally:
+        shutil.rmtree(work, ignore_errors=True)
+        shutil.rmtree(vout, ignore_errors=True)
+
+
+paths = []
+for meta_path in sorted(glob.glob(os.path.join(here, "seeded", "*", "meta.json"))):
+    if prop in json.load(open(meta_path)).get("detected_by_properties", []):
+        paths.append(meta_path)
+with ThreadPoolExecutor(max_workers=4) as ex:
+    out = list(ex.map(replay, paths))
 print(json.dumps({"seeds_replayed": len(out), "detected": sum(1 for x in out if x.get("detected")), "results": out}, indent=1))
